@@ -1,3 +1,7 @@
 pub mod client;
 pub mod daemon;
+pub mod e2e;
+pub mod files;
+pub mod poller;
+pub mod process;
 pub mod shm;
